@@ -176,6 +176,26 @@ def _install_hooks():
       rec('complete', w.stack_of.get(id(sink_stack)), type(err).__name__ if err is not None else 'value')
     return orig_done(self, sink_stack, context, stream, msg)
   dp._AsyncResponseSink.AsyncProcessResponse = rs_done
+  # the exact moment the caller-visible result of a call is set (the AsyncResult handed out by the dispatcher)
+  import scales.asynchronous as sa
+  orig_set = sa.AsyncResult.set
+  orig_sete = sa.AsyncResult.set_exception
+
+  def ar_set(self, value=None):
+    w = V._CUR[0]
+    if w is not None and hasattr(w, 'ar_of') and id(self) in w.ar_of:
+      rec('caller-set', w.ar_of[id(self)], 'value')
+    return orig_set(self, value)
+
+  def ar_sete(self, exception, exc_info=None):
+    w = V._CUR[0]
+    if w is not None and hasattr(w, 'ar_of') and id(self) in w.ar_of:
+      inner = getattr(exception, 'inner_exception', None)
+      rec('caller-set', w.ar_of[id(self)], type(inner if inner is not None else exception).__name__)
+    return orig_sete(self, exception, exc_info) if exc_info is not None else orig_sete(self, exception)
+  sa.AsyncResult.set = ar_set
+  sa.AsyncResult.set_exception = ar_sete
+
   import scales.thrift.sink as ts
   import scales.mux.sink as ms
   orig_ser = ts.SocketTransportSink.AsyncProcessRequest
@@ -249,6 +269,7 @@ def run(spec):
   w.trace = []
   w.next_seq = itertools.count(1).__next__
   w.stack_of = {}
+  w.ar_of = {}
   w.keep = []
   _install_hooks()
   try:
@@ -366,6 +387,8 @@ def _run(spec, w):
       def on_done(a, rec=rec):
         k, v = outcome_kind(a)
         rec['done'].append({'at': ticks(w.clock.now), 'kind': k, 'value': v, 'seq': w.next_seq()})
+      w.ar_of[id(ar)] = cid
+      w.keep.append(ar)
       ar.rawlink(on_done)
       rec['_ar'] = ar
     elif op == 'join':
